@@ -1,8 +1,9 @@
 #!/bin/bash
 # dev helper: generate + verify one unit, print rendered diagnostics
 u=$1; shift
-cd /verif && mkdir -p .work && python3 tools/extract.py verus/units/$u.vu -o .work/$u.rs --prelude verus/prelude.rs --prelude verus/shims.rs || exit 2
-cd .work && verus $u.rs --output-json --time --error-format=json "$@" > $u.out.json 2> $u.err.txt
+W=${VERIF_WORK:-/verif/.work}
+cd /verif && mkdir -p $W && python3 tools/extract.py verus/units/$u.vu -o $W/$u.rs --prelude verus/prelude.rs --prelude verus/shims.rs || exit 2
+cd $W && verus $u.rs --output-json --time --error-format=json "$@" > $u.out.json 2> $u.err.txt
 echo exit=$?
 python3 - $u <<'PY'
 import json,sys
